@@ -140,7 +140,10 @@ REMOTE_EXCEPTIONS = {
 
 def r3(ctx, prog):
     R = ctx.rule("C02.R3", "effect separation: code reachable from the cross-thread free (cutting at ownership transfer and diagnostics) neither reads nor writes owner-only page state")
-    reach = prog.reachable(["mi_free_generic_mt"], cut=CUT)
+    # the remote path: everything below the remote free primitive, plus its private wrapper when there is one
+    roots = ["mi_free_block_mt", "_mi_page_ptr_unalign"] + [c for c in rl.callers_of(prog, "mi_free_block_mt") if c in prog.fns and prog.fns[c].d.get("static") and
+                                                             not any(True for _ in prog.fns[c].calls(("mi_free_block_local", "mi_free_generic_local")))]
+    reach = prog.reachable(roots, cut=CUT)
     bad = []
     n = 0
     for nm in sorted(reach):
@@ -168,9 +171,13 @@ def r3(ctx, prog):
             ctx.ok(R, prog.fn(nm).where(), "listed exception: %s" % why)
     for own in ("_mi_page_retire", "_mi_page_unfull", "mi_page_queue_remove", "mi_page_queue_enqueue_from", "_mi_page_free", "_mi_page_free_collect"):
         ctx.check(R, own not in reach, "call graph of mi_free_generic_mt", "owner-only function %s is not reachable from the remote path" % own, key="C02.R3:call:%s" % own)
-    f = prog.fn("mi_free_generic_mt")
-    ok = not any(rl.is_call(f, c, "mi_page_has_aligned") for c in f.calls()) and any(True for _ in f.calls("_mi_page_ptr_unalign"))
-    ctx.check(R, ok, f.where(), "the remote path un-aligns unconditionally instead of reading the has_aligned flag (issue #865)", key="C02.R3:unalign")
+    sites = [(prog.fn(cn), c) for cn in rl.callers_of(prog, "mi_free_block_mt") for c in prog.fn(cn).calls("mi_free_block_mt")]
+    for f, c in sites:
+        vals = rl.values_of(f, rl.arg(f, c, 2))
+        ok = any(rl.is_call(f, v, "_mi_page_ptr_unalign") for v in vals) and not any(f.nodes[v]["k"] == "ConditionalOperator" for v in vals)
+        ctx.check(R, ok, f.where(c), "the remote path un-aligns unconditionally instead of reading the has_aligned flag (issue #865)", key="C02.R3:unalign")
+    if not sites:
+        ctx.broke("C02.R3: no call of mi_free_block_mt")
     if len(reach) < 12:
         ctx.broke("C02.R3: remote call graph has only %d functions" % len(reach))
     ctx.floor(R, 8)
